@@ -31,7 +31,7 @@ COMPONENTS = {"real": ["FutureChain", "Future subclasses", "Exchange.__getitem__
               "harness": ["calendar-free lead model", "independent ledger"], "stub": []}
 PROBE_FLOORS = {"roll_executed": 122, "step_exactly_on_last_trading_instant": 50, "short_position_rolled": 55,
                 "month_offset_positive": 40, "roll_with_spread": 63, "expiry_passed_flat": 100, "explicit_contract_list": 31,
-                "foreign_clock_write": 31, "single_event_days_with_roll": 25}
+                "foreign_clock_write": 31, "single_event_days_with_roll": 25, "roll_of_position_below_threshold": 25}
 
 
 def month_add(y, m, k):
@@ -160,7 +160,7 @@ def generate(rng, i, force=None):
         "contracts": specs, "grid": [core.iso(g) for g in grid], "grid_input": list(range(len(grid))), "events": events,
         "latency_us": lat_us, "delay": rng.choice([0, 0, 1]), "reward": {"cls": "RewardSimpleReturn"},
         "fees": {"fixed": 0, "prop": rng.choice([0, 1e-5]), "markup": 0.0}, "cash": 1e8,
-        "space": {"type": "box", "low": -1.0, "high": 1.0, "as_weights": True, "fractional": True, "margin": rng.choice([0.0, 0.0, 0.02])},
+        "space": {"type": "box", "low": -1.0, "high": 1.0, "as_weights": True, "fractional": True, "margin": rng.choice([0.0, 0.0, 0.02, 0.05, 0.125])},
         "folds": None, "markov": False, "warmup_s": None, "episode_length": None, "sampling_span": None,
         "ts_type": rng.choice(["datetime", "timestamp"]), "state": {"type": "rec", "feature": False, "k": 2},
     }
@@ -174,6 +174,10 @@ def generate(rng, i, force=None):
             w = rng.choice([1, -1]) * rng.choice([0.3, 0.5, 0.8])
         elif r < 0.15:
             w = 0.0
+        elif r < 0.3 and env["space"]["margin"] > 0:
+            # a position trimmed to less than the rebalancing threshold: when the chain rolls, closing the
+            # old lead is a liquidation (exempt from the threshold) while opening the new one is below it
+            w = rng.choice([1, -1]) * env["space"]["margin"] * rng.choice([0.3, 0.6, 0.9])
         a = [w] + ([rng.choice([0.0, 0.1])] if two else [])
         if rng.random() < p_foreign:
             # F7: somebody else moves the shared clock (to an instant inside the span)
@@ -322,6 +326,8 @@ def execute(scenario):
                         probe("short_position_rolled")
                     if ask > bid:
                         probe("roll_with_spread")
+                    if thr > 0 and nlv_pre and abs(old_pos * mult * bid / nlv_pre) < thr:
+                        probe("roll_of_position_below_threshold")
             last_lead = j
             if pos > 0:
                 sides.add("L")
